@@ -484,7 +484,7 @@ def run(ctx):
     if not (drv and h):
         return
     corpus = load_corpus(ctx.pdir + "/corpus.txt")
-    n = 30 if ctx.tier == "quick" else 600
+    n = 30 if ctx.tier == "quick" else 400
     if ctx.broken:
         n *= 10
     cases = []
@@ -502,7 +502,14 @@ def run(ctx):
 
     def work(chunk):
         inp = [l for c, _ in chunk for l in c]
-        rc, out, err = ctx.run_lines([h], inp, timeout=3600)
+        for attempt in range(6):
+            rc, out, err = ctx.run_lines([h], inp, timeout=3600)
+            if rc == 127 and "libsimgrid" in err:
+                # the shared simgrid build is being relinked by a concurrent check: wait for it
+                import time
+                time.sleep(20)
+                continue
+            break
         if rc != 0:
             return ("harness-run", rc, err, None, None)
         out = [canon(l) for l in out]
